@@ -850,6 +850,11 @@ func c19GenTree(rng *rand.Rand) string {
 	nrec := 1 + rng.IntN(3)
 	for i := 0; i < nrec; i++ {
 		r := c19Rec{level: pick(rng, levels...), msg: c19RandBytes(rng)}
+		if rng.IntN(10) == 0 {
+			// an oversized line (beyond any pooled-buffer retention threshold), so that the
+			// records handled after it exercise whatever the pool hands back
+			r.msg = append(bytes.Repeat([]byte("long line "), 450+rng.IntN(500)), r.msg...)
+		}
 		if rng.IntN(3) == 0 {
 			r.unix = 1700000000 + rng.Int64N(1000)
 		}
